@@ -501,12 +501,107 @@ func subTailLogic() mon.Sub {
 	}
 }
 
+// scriptedCompressor behaves per message: message i ends its flush with suffixes[i].
+// With resettable it keeps its identity across Writer.Reset (Reset(io.Writer) is called);
+// otherwise the Writer's constructor builds a new one per Reset.
+type scriptedCompressor struct {
+	w        io.Writer
+	script   *tailScript
+	suffix   []byte
+}
+
+type tailScript struct {
+	suffixes [][]byte
+	next     int
+}
+
+func (t *tailScript) take() []byte {
+	s := t.suffixes[t.next%len(t.suffixes)]
+	t.next++
+	return s
+}
+
+func (f *scriptedCompressor) Write(p []byte) (int, error) { return f.w.Write(p) }
+func (f *scriptedCompressor) Flush() error               { _, err := f.w.Write(f.suffix); return err }
+
+type scriptedResettable struct{ scriptedCompressor }
+
+func (f *scriptedResettable) Reset(w io.Writer) { f.w = w; f.suffix = f.script.take() }
+
+// a Writer reused through Reset must judge every message's tail on its own
+func subTailReuse() mon.Sub {
+	bad := [][]byte{nil, {0}, {0, 0}, {0, 0, 0xff}, {0xff}, {0xff, 0xff}, {0, 0xff, 0xff}, {0, 0, 0xff, 0xfe}}
+	return mon.Sub{
+		Name: "tail-logic-reuse", Required: true,
+		N: func(t string) int {
+			if t == "thorough" {
+				return 40000
+			}
+			return 2000
+		},
+		Do: func(c *mon.C) {
+			resettable := c.I%2 == 0
+			n := 2 + c.Rng.Intn(4)
+			script := &tailScript{}
+			var good []bool
+			for i := 0; i < n; i++ {
+				if c.Rng.Intn(2) == 0 {
+					script.suffixes = append(script.suffixes, tail)
+					good = append(good, true)
+				} else {
+					script.suffixes = append(script.suffixes, bad[c.Rng.Intn(len(bad))])
+					good = append(good, false)
+				}
+			}
+			ctor := func(w io.Writer) wsflate.Compressor {
+				sc := scriptedCompressor{w: w, script: script}
+				sc.suffix = script.take()
+				if resettable {
+					return &scriptedResettable{sc}
+				}
+				return &sc
+			}
+			var dst bytes.Buffer
+			w := wsflate.NewWriter(&dst, ctor)
+			var hist []string
+			for i := 0; i < n; i++ {
+				if i > 0 {
+					dst.Reset()
+					w.Reset(&dst)
+				}
+				c.Count(1)
+				msg := make([]byte, []int{0, 0, 1, 3, 4, 5, 40}[c.Rng.Intn(7)])
+				c.Rng.Read(msg)
+				_, werr := w.Write(msg)
+				ferr := w.Flush()
+				hist = append(hist, fmt.Sprintf("message %d: %d bytes, compressor ends flush with %x -> write err=%v flush err=%v", i, len(msg), script.suffixes[i], werr, ferr))
+				stream := append(append([]byte(nil), msg...), script.suffixes[i]...)
+				endsWithTail := bytes.HasSuffix(stream, tail)
+				det := map[string]interface{}{"resettable_compressor": resettable, "history": hist}
+				switch {
+				case endsWithTail && (werr != nil || ferr != nil):
+					c.Fail("tail-reuse/good-rejected", "a flush that ends with 00 00 ff ff was reported as an error on a reused writer", det)
+					return
+				case endsWithTail && !bytes.Equal(dst.Bytes(), stream[:len(stream)-4]):
+					c.Fail("tail-reuse/withheld-bytes", "destination does not hold everything but the last four bytes on a reused writer", det)
+					return
+				case !endsWithTail && werr == nil && ferr == nil:
+					c.Fail("tail-reuse/bad-compressor-accepted", fmt.Sprintf("message %d: the compressor did not end its flush with 00 00 ff ff but Flush returned nil (writer reused after %d earlier messages)", i, i), det)
+					return
+				}
+			}
+			c.Classf("n=%d resettable=%v first=%v", n, resettable, good[0])
+			c.Sample(map[string]interface{}{"resettable_compressor": resettable, "history": hist})
+		},
+	}
+}
+
 func main() {
 	mon.Main(&mon.Spec{
 		Property: "C12",
 		Level:    "exploration",
 		Rule: "oracle = CPython zlib (python3 oracles/inflate.py, raw deflate window 15) in a pool of subprocesses; the library runs with Go's compress/flate as the user-supplied codec. (a) writer: 12 payload classes (empty, 1 byte, incompressible 100/4K/70K, compressible 1K/40K/200K > window, text-like, zero runs, random) x flate levels {-2,-1,0,1,2,5,6,9} x resettable / non-resettable compressors x random write splits with Flush after random writes x end {Flush, Flush+Close, Flush+Flush} x fresh / reused writer: zlib must inflate output ++ 00 00 ff ff to the message, and the library reader must recover it under 3 chunk plans; " +
-			"(b) reader: zlib streams (levels 0-9, strategies default/fixed/huffman/rle/filtered, memLevel 1-9, inner sync/full flushes, final sync or full flush) minus the 4-byte tail, read through byte-reader and plain-reader sources under 4 chunk plans and 4 buffer sizes; (c) frame helpers: header/payload round trip, RSV1+Length only, non-final refused, pass-through; (d) tail logic with fake compressors ending a flush with 7 different suffixes and odd chunkings. distinct = (payload class, level/strategy, mode) classes.",
+			"(b) reader: zlib streams (levels 0-9, strategies default/fixed/huffman/rle/filtered, memLevel 1-9, inner sync/full flushes, final sync or full flush) minus the 4-byte tail, read through byte-reader and plain-reader sources under 4 chunk plans and 4 buffer sizes; (c) frame helpers: header/payload round trip, RSV1+Length only, non-final refused, pass-through; (d) tail logic with fake compressors ending a flush with 7 different suffixes and odd chunkings, and (e) writers REUSED through Reset for 2-5 messages whose (resettable or rebuilt) compressor ends each flush with a scripted good or bad suffix: every message is judged on its own. distinct = (payload class, level/strategy, mode) classes.",
 		Assumptions: []string{"CPython zlib 1.2.13 is the independent DEFLATE implementation", "python3 is on PATH (pre-installed in the image)"},
 		Setup: func(r *mon.Run) {
 			var err error
@@ -516,6 +611,6 @@ func main() {
 				os.Exit(3)
 			}
 		},
-		Subs: []mon.Sub{subWriterVsZlib(), subZlibVsReader(), subFrames(), subTailLogic()},
+		Subs: []mon.Sub{subWriterVsZlib(), subZlibVsReader(), subFrames(), subTailLogic(), subTailReuse()},
 	})
 }
